@@ -31,6 +31,8 @@ type SpecEnv struct {
 	result []T
 	depth  int
 	fr     *Frame // frame for calling Go functions from specs (may be nil)
+	bound  []string // quantified variables in scope (SMT symbols)
+	axDepth int     // nesting of spec-function axiom instantiation
 }
 
 func (e *SpecEnv) with(name string, v T) *SpecEnv {
@@ -79,6 +81,22 @@ func (e *SpecEnv) evalAny(x ast.Expr) (res T, err error) {
 	}()
 	res = e.eval(x)
 	return res, nil
+}
+
+func isOldCall(x ast.Expr) bool {
+	for {
+		if p, ok := x.(*ast.ParenExpr); ok {
+			x = p.X
+			continue
+		}
+		break
+	}
+	if c, ok := x.(*ast.CallExpr); ok {
+		if id, ok := c.Fun.(*ast.Ident); ok && id.Name == "old" {
+			return true
+		}
+	}
+	return false
 }
 
 func exprString(x ast.Expr) string {
@@ -140,6 +158,10 @@ func (e *SpecEnv) eval(x ast.Expr) T {
 	case *ast.IndexExpr:
 		base := e.eval(x.X)
 		idx := e.eval(x.Index)
+		if isOldCall(x.X) {
+			// old(s)[j]: element j of the old slice in the old heap
+			return e.inOld().index(base, idx)
+		}
 		return e.index(base, idx)
 	case *ast.SliceExpr:
 		base := e.eval(x.X)
@@ -153,6 +175,7 @@ func (e *SpecEnv) eval(x ast.Expr) T {
 		if x.High != nil {
 			hi = e.eval(x.High).S
 		}
+		g.resliceLemma(base.GT.Underlying().(*types.Slice).Elem(), slOff(base.S), lo)
 		return mk(mkSlice(slBase(base.S), sAdd(slOff(base.S), lo), sSub(hi, lo), sSub(slCap(base.S), lo)), "Slice", base.GT)
 	case *ast.StarExpr:
 		p := e.eval(x.X)
@@ -581,7 +604,24 @@ func (e *SpecEnv) resolveType(x ast.Expr) types.Type {
 	case *ast.InterfaceType:
 		return types.NewInterfaceType(nil, nil)
 	case *ast.FuncType:
-		return types.NewSignatureType(nil, nil, nil, nil, nil, false)
+		mkTuple := func(fl *ast.FieldList) *types.Tuple {
+			if fl == nil {
+				return nil
+			}
+			var vs []*types.Var
+			for _, fld := range fl.List {
+				t := e.resolveType(fld.Type)
+				n := len(fld.Names)
+				if n == 0 {
+					n = 1
+				}
+				for i := 0; i < n; i++ {
+					vs = append(vs, types.NewVar(0, nil, "", t))
+				}
+			}
+			return types.NewTuple(vs...)
+		}
+		return types.NewSignatureType(nil, nil, nil, mkTuple(x.Params), mkTuple(x.Results), false)
 	}
 	specFail("unsupported type expression %s", exprString(x))
 	return nil
@@ -623,10 +663,11 @@ func (e *SpecEnv) quant(kind string, x *ast.CallExpr) T {
 	bv := fmt.Sprintf("%s!q%d", id.Name, e.g.nextQ())
 	bvq := quote(bv)
 	inner := e.with(id.Name, mk(bvq, "Int", types.Typ[types.Int]))
+	inner.bound = append(append([]string{}, e.bound...), bvq)
 	body := inner.eval(x.Args[3])
 	rng := sAnd(sLe(lo.S, bvq), sLt(bvq, hi.S))
 	if kind == "forall" {
-		return boolT(sForall(bvq, sImp(rng, body.S)))
+		return boolT(sForallPat(bvq, sImp(rng, body.S), body.S))
 	}
 	return boolT(sExists(bvq, sAnd(rng, body.S)))
 }
@@ -683,7 +724,7 @@ func (e *SpecEnv) call(x *ast.CallExpr) T {
 				// the state it was evaluated in.
 				eb := e.elemIn(x.Args[1], b, j)
 				return boolT(sAnd(sEq(slLen(a.S), slLen(b.S)),
-					sForall(j, sImp(sAnd(sLe("0", j), sLt(j, slLen(a.S))), sEq(ea.S, eb.S)))))
+					sForallPat(j, sImp(sAnd(sLe("0", j), sLt(j, slLen(a.S))), sEq(ea.S, eb.S)), sEq(ea.S, eb.S))))
 			case "fresh":
 				v := e.eval(x.Args[0])
 				ref := v.S
@@ -849,6 +890,9 @@ func (e *SpecEnv) applyPred(p *Pred, args []ast.Expr) T {
 	}
 	var as []T
 	for _, a := range args {
+		if isOldCall(a) && e.cur != e.old {
+			specFail("%s(old(...)): wrap the whole application in old(...) — predicates read the heap of the state they are evaluated in", p.Name)
+		}
 		as = append(as, e.eval(a))
 	}
 	return e.applyPredT(p, as)
@@ -865,7 +909,7 @@ func (e *SpecEnv) applyPredT(p *Pred, as []T) T {
 			}
 		}
 	}
-	penv := &SpecEnv{g: g, pkg: declPkg, cur: e.cur, old: e.old, vars: map[string]T{}, depth: e.depth + 1, fr: e.fr, iter: nil}
+	penv := &SpecEnv{g: g, pkg: declPkg, cur: e.cur, old: e.old, vars: map[string]T{}, depth: e.depth + 1, fr: e.fr, iter: nil, bound: e.bound, axDepth: e.axDepth}
 	if e.depth > 20 {
 		specFail("predicate nesting too deep at %s", p.Name)
 	}
@@ -893,13 +937,40 @@ func (e *SpecEnv) applyPredT(p *Pred, as []T) T {
 	for _, a := range as {
 		sorts = append(sorts, a.Sort)
 		strs = append(strs, a.S)
+		// heap dependence: the content of slice and map arguments is an implicit argument
+		if a.GT != nil {
+			switch u := a.GT.Underlying().(type) {
+			case *types.Slice:
+				arr, es := g.elemsArr(u.Elem())
+				sorts = append(sorts, es)
+				strs = append(strs, sel(g.arr(e.cur, arr, es), slBase(a.S)))
+			case *types.Map:
+				va, ha, ks, vs := g.mapArrs(u)
+				vsort, hsort := fmt.Sprintf("(Array %s %s)", ks, vs), fmt.Sprintf("(Array %s Bool)", ks)
+				sorts = append(sorts, vsort, hsort)
+				strs = append(strs, sel(g.arr(e.cur, va, vsort), a.S), sel(g.arr(e.cur, ha, hsort), a.S))
+			}
+		}
 	}
 	name := quote("spec:" + p.Name)
 	g.declFun(name, sorts, rs)
 	res := mk(app(name, strs...), rs, rt)
-	// axioms are instantiated at this application
+	// axioms are instantiated at this application — only for ground arguments (no quantified
+	// variable), and recursive definitions are unfolded one level (DESIGN 5.4)
+	ground := true
+	for _, a := range strs {
+		for _, bv := range e.bound {
+			if strings.Contains(a, bv) {
+				ground = false
+			}
+		}
+	}
+	if !ground || e.axDepth >= 2 {
+		return res
+	}
 	for _, ax := range p.Axioms {
 		aenv := *penv
+		aenv.axDepth = e.axDepth + 1
 		aenv.vars = map[string]T{}
 		for k, v := range penv.vars {
 			aenv.vars[k] = v
